@@ -478,9 +478,24 @@ def c09_newlines(args):
     return None
 
 
+C09_WORDS = ['(', ')', '((', ':(', ':-)', '"', '#', '/', '~e.1', 'w', '^', ',', ';', ':r', '(a', 'b)', '\\', "'"]
+C09_STRCH = ['(', ')', ' ', '#', ':', 'a', '\\"', ';', '/', '~', '\\\\', '::']
+
+
+def c09_random_graph(rnd):
+    """metadata values and string atoms made of the notation's own delimiters, in no particular
+    arrangement (nothing balanced, nothing paired)"""
+    meta = {}
+    for key in rnd.sample(['snt', 'id', 'tok', 'note'], rnd.randint(1, 3)):
+        meta[key] = ' '.join(rnd.choice(C09_WORDS) for _ in range(rnd.randint(0, 4)))
+    q = '"' + ''.join(rnd.choice(C09_STRCH) for _ in range(rnd.randint(0, 5))) + '"'
+    src = rnd.choice(['(a / x :R %s :S (b / y))', '(a / %s)', '(a / x :R (b / y :S %s) :T b)']) % q
+    return src, meta
+
+
 def run_C09(R):
     for it in range(250 if R.quick else 4000):
-        gs = [(R.rnd.choice(C09_SRC), R.rnd.choice(C09_METAS))
+        gs = [(R.rnd.choice(C09_SRC), R.rnd.choice(C09_METAS)) if R.rnd.random() < 0.5 else c09_random_graph(R.rnd)
               for _ in range(R.rnd.randint(0, 3))]
         R.check('C09.containers', {'graphs': gs, 'indent': R.rnd.choice([-1, None, 0, 2]),
                                    'model': R.rnd.choice(['default', 'amr'])},
